@@ -74,6 +74,17 @@ def configs(tier):
                     if (f == "full" and b != "direct") or (len(shape) == 3 and int(np.prod(shape)) > 8):
                         continue
                     out.append(dict(kind="first_reuse", shape=shape, form=f, backend=b))
+    # a non-default regularisation option (it guards the mobility, not the linear algebra) and an earlier solver
+    # object on a grid of the same shape but other voxel sizes
+    for shape in ([3], [2, 2]) + (() if tier == "quick" else ([3, 2], [2, 1, 2])):
+        for f in FORMS:
+            for b in BACKENDS:
+                if f == "full" and b != "direct":
+                    continue
+                out.append(dict(kind="solve", shape=shape, form=f, backend=b, regularization=0.125))
+                out.append(dict(kind="solve", shape=shape, form=f, backend=b, earlier_object=True))
+                if shape == [2, 2]:
+                    out.append(dict(kind="solve", shape=shape, form=f, backend=b, bare_options=True))
     # the system matrix handed over in CSR layout (linear_solve accepts any scipy sparse matrix)
     for shape in ([3], [2, 2]) + (() if tier == "quick" else ([3, 2], [2, 1, 2])):
         for f in FORMS:
@@ -87,6 +98,7 @@ def configs(tier):
 
 
 LOG = []
+OPTS_SEEN = []
 
 
 def install_stubs():
@@ -97,12 +109,17 @@ def install_stubs():
     stubs.install_linear_solver_stubs(ws, la, LOG)
 
 
-def _solver(darsia, cfg, w):
+def _solver(darsia, cfg, w, vox=None):
     import darsia.measure.wasserstein as ws
 
     shape = tuple(cfg["shape"])
-    grid = darsia.Grid(shape, VOX[: len(shape)])
+    grid = darsia.Grid(shape, (vox or VOX)[: len(shape)])
     opts = {"formulation": cfg.get("form", "full"), "linear_solver": cfg.get("backend", "direct"), "linear_solver_options": {"atol": 1e-14, "rtol": 1e-14, "maxiter": 2000}}
+    if "regularization" in cfg:
+        opts["regularization"] = cfg["regularization"]
+    if cfg.get("bare_options"):
+        opts["linear_solver_options"] = {}
+    OPTS_SEEN.append(opts)
     w1 = ws.WassersteinDistanceBregman(grid, None, opts)
     return grid, w1
 
@@ -137,6 +154,11 @@ def body(cfg):
 
     if cfg["kind"] == "names":
         return body_names(cfg, darsia)
+    if cfg.get("earlier_object"):
+        g0, w0 = _solver(darsia, cfg, None, vox=[1.5, 0.75, 0.125])
+        nf0, nc0 = int(g0.num_faces), int(g0.num_cells)
+        A0 = _system(w0, S.array("w0", nf0, lo="1/100", hi=10))
+        w0.linear_solve(A0, _rhs("z", nf0, nc0))
     grid, w1 = _solver(darsia, cfg, None)
     nf, nc = int(grid.num_faces), int(grid.num_cells)
     w = S.array("w", nf, lo="1/100", hi=10)
@@ -212,6 +234,14 @@ def body(cfg):
     sol4, _ = w1.linear_solve(A, rhs4.copy(), reuse_solver=False)
     a, b_, c_ = _residual_ok(A, sol4, rhs4, nf, nc)
     S.claim("back_to_first_matrix_without_reuse", S.and_(a, b_, c_))
+    # the options dictionary belongs to the caller (it is typically reused to build the next solver)
+    import copy
+
+    mine = OPTS_SEEN[-1]
+    want = {"formulation": cfg.get("form", "full"), "linear_solver": cfg.get("backend", "direct"), "linear_solver_options": {} if cfg.get("bare_options") else {"atol": 1e-14, "rtol": 1e-14, "maxiter": 2000}}
+    if "regularization" in cfg:
+        want["regularization"] = cfg["regularization"]
+    S.claim("options_of_the_caller_are_left_as_they_were", copy.deepcopy(mine) == want)
     S.observe("solution4", sol4)
 
 
